@@ -951,6 +951,8 @@ var engineMeta = map[string]meta{
 		stub: []string{"metric.Exporter behind the periodic reader (scripted: ok/error/slow)", "harness gate that keeps measurements out of joint collections (a legal schedule restriction, not part of the SDK)"}, assumptions: commonAssumptions},
 	"lifecycle": {real: []string{"sdk/trace, sdk/metric, sdk/log providers with the stock Simple/Batch processors, Manual/Periodic readers, all instrumented by simgen from the current working tree", "stock exporters: tracetest.InMemoryExporter, stdouttrace, stdoutmetric, stdoutlog (writing to a stamped in-memory writer), and nil exporters"},
 		stub: []string{"thin counting wrappers around processors and exporters"}, assumptions: commonAssumptions},
+	"globalsim": {real: []string{"go.opentelemetry.io/otel (trace.go, metric.go, propagation.go) and internal/global (state, trace, meter, instruments, propagator) instrumented by simgen from the current working tree", "real sdk/trace and sdk/metric as the installed delegates"},
+		stub: []string{"recording SpanProcessor; overlay-added VerifReset (same body as the test-only ResetForTest) puts the process globals back between runs"}, assumptions: commonAssumptions},
 	"logbatch": {real: []string{"sdk/log (batch.go, exporter.go, ring.go, logger.go, record.go, provider.go) instrumented by simgen from the current working tree", "internal/global"},
 		stub: []string{"log.Exporter (scripted: ok/error/slow/hang-until-ctx)", "a second Processor that mutates the record it is given"}, assumptions: commonAssumptions},
 }
